@@ -58,9 +58,11 @@ def calloc (s : State) (nmemb size : Nat) : State × Option Nat :=
   if size ≠ 0 ∧ nmemb > (W - 1) / size then (s, none)
   else malloc s (nmemb * size)
 
-/-- `zix_bump_realloc(ptr, size)` where `ptr` is the address of live block `off`. -/
+/-- `zix_bump_realloc(ptr, size)` where `ptr` is the address `buffer + off`: only the last block,
+and only while it has not been freed (`last < top`; after a free, and on a fresh allocator,
+`top = last`). -/
 def realloc (s : State) (off size : Nat) : State × Option Nat :=
-  if off ≠ s.last then (s, none)
+  if off ≠ s.last ∨ s.last ≥ s.top then (s, none)
   else
     let rs := realSize size
     if rs < size ∨ s.last > s.cap ∨ rs > s.cap - s.last then (s, none)
